@@ -68,6 +68,7 @@ fn rerun(w: &Value) -> Option<Outcome> {
         "c09_ids" => Some(c09::run(w["input"]["spec"].as_str()?, &w["input"]["map"].as_array()?.iter().map(|x| (x[0].as_str().unwrap_or("").to_string(), x[1].as_u64().unwrap_or(0) as u32)).collect::<Vec<_>>())),
         "c10_render" => Some(c10r::run(w["input"]["seed"].as_u64()?, w["input"]["layout"].as_u64()? as usize, w["input"]["kind"].as_u64()? as u8)),
         "c20_u8_table" => Some(c20::run_u8_table(w["input"]["kind"].as_str()?, w["input"]["n"].as_u64()? as usize)),
+        "c11_flagforce" => Some(c11::run_flagforce(w["input"]["section"].as_str()?, w["input"]["re"].as_str()?, w["input"]["input"].as_str()?)),
         "c11_escape" => Some(c11::run_escape(w["input"]["re"].as_str()?, w["input"]["text"].as_str()?)),
         "c11_numflag" => Some(c11::run_numflag(w["input"]["key"].as_str()?, w["input"]["n"].as_u64()?)),
         "known" => known::run(w["input"]["case"].as_str()?),
